@@ -1,3 +1,298 @@
-import WK.Spec.C22
+import WK.Proofs.C22_Frames
+/-
+  C22 — WKProto frames round-trip exactly.
+
+  All theorems are about `WK.C22.encodeFrame / decodeFrame / encodedSize`
+  (lean/WK/Model/C22.lean), the definitions the drivers of C22 and C23 execute
+  against the real codec on every run.  They hold for EVERY protocol version
+  (any `v : Nat`, so in particular 0..LatestVersion and every uint8), every one
+  of the 12 frame types and every flag combination.
+-/
 namespace WK.C22
+
+/-! ## varint -/
+
+/-- Remaining-length varint round-trip for every length 1 … 2^28-1 (MaxRemaingLength
+    = 2^20 is far inside), with arbitrary trailing bytes; the decoder reports exactly
+    the number of bytes the encoder wrote. -/
+theorem c22_varint_roundtrip (n : Nat) (rest : Bytes) (h0 : 0 < n) (h : n < 268435456) :
+    decLen (encVar n ++ rest) = some (n, (encVar n).length) := by
+  rw [encVar_length]; exact decLen_encVar n rest h0 h
+
+example : decLen (encVar 1048576 ++ [0xAA]) = some (1048576, 3) := by decide
+
+/-- `encodedVariableSize` is exact for every uint32 (indeed every Nat). -/
+theorem c22_varint_size (n : Nat) : varSize n = (encVar n).length := (encVar_length n).symm
+
+example : varSize 16384 = 3 ∧ (encVar 16384).length = 3 := by decide
+
+/-- §8.6: length 0 is encoded as NO byte at all — a zero-length body would not round-trip … -/
+theorem c22_varint_zero : encVar 0 = [] ∧ decLen (encVar 0 ++ [5]) = some (5, 1) := by decide
+
+/-- … but no frame type has an empty body, at any version. -/
+theorem c22_body_nonempty (v : Nat) (f : Frame) (h : f.typeNo ≠ 7 ∧ f.typeNo ≠ 8) : 0 < bodySize v f := by
+  cases f <;> simp [Frame.typeNo] at h <;>
+    simp [bodySize, sizeConnect, sizeConnack, sizeSend, sizeSendack, sizeRecv, sizeRecvack, sizeDisconnect,
+      sizeSub, sizeSuback, sizeEvent] <;> omega
+
+example : bodySize 0 (.disconnect {} { reasonCode := 0, reason := [] }) = 3 := by decide
+
+/-! ## header byte -/
+
+/-- The fixed header byte carries the type and, for every one of the 64 flag
+    combinations, exactly the normalised flags: the four low bits for ordinary
+    frames; for CONNACK only HasServerVersion, which the decoder mirrors into
+    NoPersist (the overload). -/
+theorem c22_header_flags (ft : Nat) (h : Flags) (hft : ft < 16) :
+    typeOfByte (hdrByte ft h) = ft ∧
+    flagsOfByte (hdrByte ft h) = if ft = 2 then normConnackFlags h else normFlags h := by
+  refine ⟨typeOfByte_hdr ft h hft, ?_⟩
+  by_cases h2 : ft = 2
+  · subst h2; simp [flags_hdr_connack]
+  · simp [h2, flags_hdr ft h hft h2]
+
+example : flagsOfByte (hdrByte 2 { dup := true, hsv := true }) = { noPersist := true, hsv := true } := by decide
+
+/-! ## size exactness -/
+
+theorem body_size_exact (v : Nat) (f : Frame) (body : Bytes) (h : encodeBody v f = .ok body) :
+    body.length = bodySize v f := by
+  cases f with
+  | connect hh p => exact connect_size p body h
+  | connack hh p => exact connack_size v hh p body h
+  | send hh p => exact send_size v p body h
+  | sendack hh p => exact sendack_size v p body h
+  | recv hh p => exact recv_size v p body h
+  | recvack hh p => exact recvack_size v p body h
+  | ping hh => simp [encodeBody] at h; subst h; rfl
+  | pong hh => simp [encodeBody] at h; subst h; rfl
+  | disconnect hh p => exact disconnect_size p body h
+  | sub hh p => exact sub_size p body h
+  | suback hh p => exact suback_size p body h
+  | event hh p => exact event_size p body h
+
+/-- Whenever `EncodeFrame` produces bytes — no limits assumed — the precomputed
+    `encodedFrameSize` equals the number of bytes produced. -/
+theorem c22_size_exact (v : Nat) (f : Frame) (bs : Bytes) (h : encodeFrame v f = .ok bs) :
+    encodedSize v f = bs.length := by
+  cases f with
+  | ping hh => simp [encodeFrame] at h; subst h; rfl
+  | pong hh => simp [encodeFrame] at h; subst h; rfl
+  | connect hh p | connack hh p | send hh p | sendack hh p | recv hh p | recvack hh p
+  | disconnect hh p | sub hh p | suback hh p | event hh p =>
+    simp only [encodeFrame] at h
+    simp only [encodedSize]
+    split at h
+    · cases h
+    · rename_i hl
+      split at h
+      · cases h
+      · rename_i body hb
+        simp only [Except.ok.injEq] at h
+        subst h
+        have := body_size_exact v _ body hb
+        simp [hl, encVar_length, this]
+        omega
+
+example : encodeFrame 6 (.recvack { dup := true } { messageID := 1, messageSeq := 2 }) =
+    .ok [0x68, 16, 0,0,0,0,0,0,0,1, 0,0,0,0,0,0,0,2] ∧
+    encodedSize 6 (.recvack { dup := true } { messageID := 1, messageSeq := 2 }) = 18 := by decide
+
+/-! ## round trip -/
+
+/-- the flags the wire carries for a frame -/
+def wireFlags (f : Frame) : Flags :=
+  if f.typeNo = 2 then normConnackFlags f.flags else normFlags f.flags
+
+theorem body_roundtrip (v : Nat) (f : Frame) (hf : FieldsOk v f) (hp : f.typeNo ≠ 7 ∧ f.typeNo ≠ 8) :
+    ∃ body, encodeBody v f = .ok body ∧ body.length = bodySize v f ∧
+      decodeBody f.typeNo v (wireFlags f) body = some (some (norm v f)) := by
+  cases f with
+  | connect hh p =>
+    simpa [encodeBody, bodySize, decodeBody, Frame.typeNo, norm, wireFlags, Frame.flags]
+      using connect_body (normFlags hh) p hf
+  | connack hh p =>
+    obtain ⟨b, h1, h2, _⟩ := connack_body v hh p hf
+    refine ⟨b, h1, h2, ?_⟩
+    -- the decoder sees the wire flags, whose hsv equals the frame's
+    obtain ⟨b', h1', _, h3'⟩ := connack_body v (normConnackFlags hh) p hf
+    have e : encConnack v (normConnackFlags hh) p = encConnack v hh p := by
+      simp [encConnack, normConnackFlags]
+    rw [e, h1] at h1'
+    cases h1'
+    simp only [decodeBody, wireFlags, Frame.typeNo, Frame.flags, norm, if_true]
+    rw [h3']
+    simp [normConnackFlags]
+    rfl
+  | send hh p =>
+    simpa [encodeBody, bodySize, decodeBody, Frame.typeNo, norm, wireFlags, Frame.flags]
+      using send_body v (normFlags hh) p hf
+  | sendack hh p =>
+    simpa [encodeBody, bodySize, decodeBody, Frame.typeNo, norm, wireFlags, Frame.flags]
+      using sendack_body v (normFlags hh) p hf
+  | recv hh p =>
+    simpa [encodeBody, bodySize, decodeBody, Frame.typeNo, norm, wireFlags, Frame.flags]
+      using recv_body v (normFlags hh) p hf
+  | recvack hh p =>
+    simpa [encodeBody, bodySize, decodeBody, Frame.typeNo, norm, wireFlags, Frame.flags]
+      using recvack_body v (normFlags hh) p hf
+  | ping hh => simp [Frame.typeNo] at hp
+  | pong hh => simp [Frame.typeNo] at hp
+  | disconnect hh p =>
+    simpa [encodeBody, bodySize, decodeBody, Frame.typeNo, norm, wireFlags, Frame.flags]
+      using disconnect_body (normFlags hh) p hf
+  | sub hh p =>
+    simpa [encodeBody, bodySize, decodeBody, Frame.typeNo, norm, wireFlags, Frame.flags]
+      using sub_body (normFlags hh) p hf
+  | suback hh p =>
+    simpa [encodeBody, bodySize, decodeBody, Frame.typeNo, norm, wireFlags, Frame.flags]
+      using suback_body (normFlags hh) p hf
+  | event hh p =>
+    simpa [encodeBody, bodySize, decodeBody, Frame.typeNo, norm, wireFlags, Frame.flags]
+      using event_body (normFlags hh) p hf
+
+theorem typeNo_lt (f : Frame) : f.typeNo < 16 ∧ f.typeNo ≠ 0 := by cases f <;> simp [Frame.typeNo]
+
+/-- shape of a successful encoding of a non-PING/PONG frame: header byte, varint of
+    the body size, body of exactly that size -/
+theorem c22_encode_shape (v : Nat) (f : Frame) (h : WithinLimits v f) (hp : f.typeNo ≠ 7 ∧ f.typeNo ≠ 8) :
+    ∃ body, encodeFrame v f = .ok (hdrByte f.typeNo f.flags :: (encVar (bodySize v f) ++ body)) ∧
+      body.length = bodySize v f := by
+  obtain ⟨hf, _⟩ := h
+  obtain ⟨body, he, hl, _⟩ := body_roundtrip v f hf hp
+  have hnl : sendTooLarge f = false := by
+    cases f with
+    | send hh p =>
+      have := hf.2.2.2.2.2.2.2.2.2
+      simp [sendTooLarge, payloadMaxSize] at this ⊢
+      omega
+    | _ => rfl
+  refine ⟨body, ?_, hl⟩
+  cases f <;> simp [Frame.typeNo] at hp <;> simp [encodeFrame, hnl, he]
+
+/-- **Round trip.**  For every version, frame type, flag combination and field
+    values within the protocol limits: encoding succeeds, and decoding the bytes
+    (followed by ANY further bytes) yields the normalised frame and consumes
+    exactly the encoded length. -/
+theorem c22_roundtrip (v : Nat) (f : Frame) (rest : Bytes) (h : WithinLimits v f) :
+    ∃ bs, encodeFrame v f = .ok bs ∧ decodeFrame v (bs ++ rest) = .ok (norm v f) bs.length := by
+  obtain ⟨hf, hmax⟩ := h
+  by_cases hp : f.typeNo ≠ 7 ∧ f.typeNo ≠ 8
+  · obtain ⟨body, he, hl, hd⟩ := body_roundtrip v f hf hp
+    have hnl : sendTooLarge f = false := by
+      cases f with
+      | send hh p =>
+        have := hf.2.2.2.2.2.2.2.2.2
+        simp [sendTooLarge, payloadMaxSize] at this ⊢
+        omega
+      | _ => rfl
+    have hpos := c22_body_nonempty v f hp
+    have hlt : bodySize v f < 268435456 := by simp [maxRemainingLength] at hmax; omega
+    have henc : encodeFrame v f = .ok (hdrByte f.typeNo f.flags :: (encVar (bodySize v f) ++ body)) := by
+      cases f <;> simp [Frame.typeNo] at hp <;> simp [encodeFrame, hnl, he]
+    refine ⟨_, henc, ?_⟩
+    obtain ⟨hty, hty0⟩ := typeNo_lt f
+    have hhdr := c22_header_flags f.typeNo f.flags hty
+    have hlen := decLen_encVar (bodySize v f) (body ++ rest) hpos hlt
+    have hwf : wireFlags f = flagsOfByte (hdrByte f.typeNo f.flags) := by
+      rw [hhdr.2]; rfl
+    simp only [decodeFrame, List.cons_append, List.append_assoc, decodeHeader, hhdr.1, hlen]
+    have c1 : (f.typeNo ≠ 7 ∧ f.typeNo ≠ 8) := hp
+    rw [if_pos c1]
+    simp only [if_neg hty0, if_neg hp.1, if_neg hp.2]
+    have c2 : ¬ bodySize v f > maxRemainingLength := by omega
+    rw [if_neg c2]
+    have c3 : ¬ (List.length (hdrByte f.typeNo f.flags :: (encVar (bodySize v f) ++ (body ++ rest)))
+        < bodySize v f + 1 + varSize (bodySize v f)) := by
+      simp [encVar_length, hl]; omega
+    rw [if_neg c3]
+    have c4 : (List.drop (1 + varSize (bodySize v f))
+        (hdrByte f.typeNo f.flags :: (encVar (bodySize v f) ++ (body ++ rest)))).take (bodySize v f) = body := by
+      rw [Nat.add_comm 1, List.drop_succ_cons, ← encVar_length, List.drop_left, ← hl, List.take_left]
+    rw [c4, ← hwf, hd]
+    simp [encVar_length, hl]
+    omega
+  · have : f.typeNo = 7 ∨ f.typeNo = 8 := by omega
+    cases f <;> simp [Frame.typeNo] at this
+    · exact ⟨_, rfl, by simp [decodeFrame, decodeHeader, typeOfByte, flagsOfByte, norm]⟩
+    · exact ⟨_, rfl, by simp [decodeFrame, decodeHeader, typeOfByte, flagsOfByte, norm]⟩
+
+/-- non-vacuity: a SEND with stream + topic settings at version 4, all four flags, trailing bytes -/
+def exSend : Frame := .send { noPersist := true, redDot := true, syncOnce := true, dup := true }
+  { setting := 10, clientSeq := 7, clientMsgNo := [1], streamNo := [2], channelID := [3], channelType := 2,
+    expire := 9, msgKey := [], topic := [4, 5], payload := [6, 7, 8] }
+
+example : WithinLimits 4 exSend ∧ norm 4 exSend = exSend := by decide
+example : ∃ bs, encodeFrame 4 exSend = .ok bs ∧ decodeFrame 4 (bs ++ [0xFF, 0x00]) = .ok exSend bs.length := by
+  refine ⟨_, rfl, ?_⟩
+  decide
+
+/-- `norm` only forgets what the wire format of that version does not carry: it is idempotent … -/
+theorem c22_norm_idem (v : Nat) (f : Frame) : norm v (norm v f) = norm v f := by
+  cases f with
+  | connack hh p => cases h : hh.hsv <;> by_cases hv : v ≥ 4 <;> simp [norm, normConnackFlags, h, hv]
+  | send hh p =>
+    cases hs : streamOn v p.setting <;> cases ht : topicOn p.setting <;> by_cases hv : v ≥ 3 <;>
+      simp [norm, normFlags, hs, ht, hv]
+  | recv hh p =>
+    cases hs : streamOn v p.setting <;> cases ht : topicOn p.setting <;> by_cases hv : v ≥ 3 <;>
+      simp [norm, normFlags, hs, ht, hv]
+  | _ => simp [norm, normFlags]
+
+/-- … so for a canonical frame (one that uses only what its version carries)
+    decode ∘ encode is literally the identity. -/
+theorem c22_roundtrip_canonical (v : Nat) (f : Frame) (rest : Bytes) (h : WithinLimits v f) (hc : Canonical v f) :
+    ∃ bs, encodeFrame v f = .ok bs ∧ decodeFrame v (bs ++ rest) = .ok f bs.length := by
+  have := c22_roundtrip v f rest h
+  rwa [hc] at this
+
+example : Canonical 6 (.recvack { dup := true } { messageID := 5, messageSeq := 18446744073709551615 }) ∧
+    WithinLimits 6 (.recvack { dup := true } { messageID := 5, messageSeq := 18446744073709551615 }) := by decide
+
+/-! ## what the decoder can return at all (used by C23) -/
+
+/-- A decoded frame always consumed at least one and at most all of the given bytes. -/
+theorem c22_decode_bounds (v : Nat) (data : Bytes) (f : Frame) (n : Nat) (h : decodeFrame v data = .ok f n) :
+    1 ≤ n ∧ n ≤ data.length := by
+  unfold decodeFrame at h
+  split at h
+  · cases h
+  · rename_i b0 rest
+    split at h
+    · cases h
+    · rename_i ft hh rl rll hhdr
+      split at h
+      · cases h
+      · split at h
+        · simp only [DecRes.ok.injEq] at h; simp [← h.2]
+        · split at h
+          · simp only [DecRes.ok.injEq] at h; simp [← h.2]
+          · split at h
+            · cases h
+            · split at h
+              · cases h
+              · rename_i hlen
+                dsimp only at h
+                split at h
+                · cases h
+                · cases h
+                · simp only [DecRes.ok.injEq] at h
+                  rw [← h.2]
+                  omega
+
+/-- The decoder panics (index out of range) exactly on the empty input. -/
+theorem c22_decode_panic_iff (v : Nat) (data : Bytes) : decodeFrame v data = .panic ↔ data = [] := by
+  constructor
+  · intro h
+    cases data with
+    | nil => rfl
+    | cons b0 rest =>
+      exfalso
+      simp only [decodeFrame] at h
+      repeat' split at h
+      all_goals cases h
+  · rintro rfl; rfl
+
+example : decodeFrame 6 [] = .panic := rfl
+
 end WK.C22
